@@ -298,7 +298,7 @@ pub fn materialise(dir: &Path, c: &Case) {
     }
 }
 
-fn extra_args(c: &Case, with_excl: bool) -> Vec<String> {
+pub fn extra_args(c: &Case, with_excl: bool) -> Vec<String> {
     let mut a: Vec<String> = vec!["-t".into(), c.ty.clone(), "--no-demangle".into()];
     if c.sorted {
         a.push("--sort-output-types".into());
@@ -546,7 +546,7 @@ pub fn read_params(ty: &str, text: &str) -> Params {
 
 // ---- the request ------------------------------------------------------------------------------
 
-fn scan_fs(cwd: &Path) -> (Vec<String>, Vec<String>) {
+pub fn scan_fs(cwd: &Path) -> (Vec<String>, Vec<String>) {
     let mut dirs = vec![];
     let mut files = vec![];
     let mut p = cwd.to_path_buf();
@@ -581,13 +581,13 @@ fn scan_fs(cwd: &Path) -> (Vec<String>, Vec<String>) {
     (dirs, files)
 }
 
-fn opt_arg(tag: char, o: &Option<String>) -> String {
+pub fn opt_arg(tag: char, o: &Option<String>) -> String {
     match o {
         None => format!("{}-", tag),
         Some(s) => format!("{}+{}", tag, hex(s.as_bytes())),
     }
 }
-fn list_arg(tag: char, elt: char, xs: &[String]) -> String {
+pub fn list_arg(tag: char, elt: char, xs: &[String]) -> String {
     format!("{}{}", tag, xs.iter().map(|x| format!("{}{}", elt, hex(x.as_bytes()))).collect::<Vec<_>>().join(","))
 }
 
